@@ -59,12 +59,28 @@ func preValue(kind string, salt int) *fake.Value {
 func genCase(t *rapid.T) Case {
 	o := gen.DatasetOpts{NowMs: time.Now().UnixNano() / 1e6, Big: rapid.IntRange(0, 4).Draw(t, "big") == 0, MaxKeys: 8}
 	c := Case{File: gen.GenFile(t, o), Cfg: fullsync.GenCfg(t)}
+	renamedSplit := rapid.IntRange(0, 7).Draw(t, "renamedSplitValue") == 0
+	if renamedSplit {
+		// a value that is renamed on the way (replaceHashTag), large enough to be split into several parts, over a pre-existing key:
+		// the policy decision taken for the first part must hold for every part, under the target's name
+		c.Cfg.ReplaceHashTag = true
+		c.Cfg.ChunkBytes = rapid.SampledFrom([]int{48, 64}).Draw(t, "rsChunk")
+		it := rdbgen.Item{DB: 0, Key: []byte(rapid.SampledFrom([]string{"big{tag}", "{u}h", "rs{b}{c}", "x}y{z}"}).Draw(t, "rsKey")), Kind: "hash", Enc: rdbgen.THash}
+		for i, n := 0, rapid.IntRange(8, 20).Draw(t, "rsFields"); i < n; i++ {
+			it.H = append(it.H, rdbgen.HField{F: []byte(fmt.Sprintf("field-%02d", i)), V: []byte(fmt.Sprintf("value-%02d-%s", i, strings.Repeat("v", i%7)))})
+		}
+		if rapid.Bool().Draw(t, "rsExpire") {
+			it.ExpireAt = o.NowMs + 7200_000
+		}
+		c.File.Items = append([]rdbgen.Item{it}, c.File.Items...)
+	}
+	c.Cfg.Normalize(c.File.Items)
 	c.Cfg.KeyExists = rapid.SampledFrom([]string{"replace", "ignore", "error"}).Draw(t, "policy")
 	if c.Cfg.TargetVer < "5" {
 		c.Cfg.TargetVer = "6.2.0"
 	}
 	for i, it := range c.File.Items {
-		if rapid.IntRange(0, 1).Draw(t, "preexists") == 0 {
+		if rapid.IntRange(0, 1).Draw(t, "preexists") == 0 || (renamedSplit && i == 0) {
 			kind := it.Kind
 			if rapid.Bool().Draw(t, "otherType") {
 				kind = rapid.SampledFrom([]string{"string", "list", "set", "zset", "hash", "stream"}).Draw(t, "preKind")
@@ -108,7 +124,7 @@ func run(c Case) (fails []failure, inconc string, facts map[string]bool, hist an
 		db, key := p.DB, []byte(p.Key)
 		if p.Item >= 0 {
 			it := c.File.Items[p.Item]
-			db, key = c.Cfg.MapDB(it.DB), []byte(it.Key)
+			db, key = c.Cfg.MapDB(it.DB), c.Cfg.TargetKey([]byte(it.Key))
 		}
 		v := preValue(p.Kind, i)
 		exp := int64(0)
